@@ -352,6 +352,9 @@ impl Service {
             if i.healthy {
                 self.healthy_instance_size -= 1;
             } else {
+                // 已经不健康的实例(如接管来的)也要登记下线检查,否则它不会再被移除
+                self.unhealthy_timeout_set
+                    .add(i.last_modified_millis as u64, instance_id.clone());
                 self.instances.insert(instance_id.clone(), i);
                 return;
             }
